@@ -782,7 +782,11 @@ def violations(inp, obs):
             else:
                 tags.add("dup:" + name)
         if len(us) != len(set(us)):
-            tags.add("dup-unversioned:" + name)
+            dups = [[None, u] for u in set(us) if us.count(u) > 1]
+            if k == 4 and sel is not None and all(_under_a_move(c, spec_all) for c in [[0, d] for d in dups]):
+                tags.add("dup-unversioned:" + name)        # same cause as dup:dirstate
+            else:
+                tags.add("dup-unversioned-unexplained:" + name)
         for c in vs:
             s = spec_all.get(c[0])
             if s is None or json.dumps(s, default=repr) != json.dumps(c, default=repr):
@@ -841,7 +845,7 @@ def _finding_of(tag, inp):
         return "C10-filtered-path-collision"
     if tag == "differs:dirstate/generic_wt" and filt:
         return "C10-dirstate-filter-closure-differs"
-    if tag == "dup:dirstate" and filt:     # cross-root moves only, see violations()
+    if tag in ("dup:dirstate", "dup-unversioned:dirstate") and filt:     # only at/below a moved id, see violations()
         return "C10-dirstate-duplicate"
     if tag == "crash:dirstate:AssertionError" and filt and _dir_to_nondir(inp):
         return "C10-dirstate-enotdir-crash"
